@@ -7,9 +7,11 @@ from . import core
 from .c14_run import Runner
 
 PROP = "C14"
-LEAN_TARGETS = ["Asynkit.Props.C14", "Asynkit.Lemmas.GenEqC14", "Asynkit.Lemmas.GenEqC14Std"]
+LEAN_TARGETS = ["Asynkit.Props.C14", "Asynkit.Lemmas.GenEqC14", "Asynkit.Lemmas.GenEqC14Std",
+                "Asynkit.Lemmas.GenEqContextlib"]
 PROPS_FILES = ["Asynkit/Props/C14.lean", "Asynkit/Lemmas/GenEqC14.lean", "Asynkit/Lemmas/GenEqC14Std.lean",
-               "Asynkit/Lemmas/C14StdLock.lean"]
+               "Asynkit/Lemmas/C14StdLock.lean",
+               "Asynkit/Lemmas/GenEqContextlib.lean"]
 DRIVERS = ["Cond"]
 TRUSTED = [
     'Lean 4.33 kernel; axioms ⊆ {propext, Classical.choice, Quot.sound} (audited per theorem each run)',
